@@ -49,12 +49,12 @@ Definition consts_asm_free (ns : list node) : Prop :=
 
 (* the node list is numbered the way the front end numbers it: one node per symbol index, instruction / data /
    reservation / alignment / address items numbered 0, 1, 2 ... in program order *)
-Definition sym_ids (ns : list node) : list nat :=
+Definition sids (ns : list node) : list nat :=
   flat_map (fun n => match n with NLabel s => [s] | NConst s _ => [s] | _ => [] end) ns.
-Definition instr_ids (ns : list node) : list nat := flat_map (fun n => match n with NInstr i _ => [i] | _ => [] end) ns.
-Definition data_ids' (ns : list node) : list nat := flat_map (fun n => match n with NData _ el => map fst el | _ => [] end) ns.
+Definition iids (ns : list node) : list nat := flat_map (fun n => match n with NInstr i _ => [i] | _ => [] end) ns.
+Definition dids (ns : list node) : list nat := flat_map (fun n => match n with NData _ el => map fst el | _ => [] end) ns.
 Definition canonical (ns : list node) : Prop :=
-  NoDup (sym_ids ns) /\ instr_ids ns = seq 0 (length (instr_ids ns)) /\ data_ids' ns = seq 0 (length (data_ids' ns)).
+  NoDup (sids ns) /\ iids ns = seq 0 (length (iids ns)) /\ dids ns = seq 0 (length (dids ns)).
 
 (* what the matcher produces: an expression argument sits at a parameter of integer / unspecified type, a nested match at
    a parameter of sub-rule type, one argument per parameter (Proofs/StaticKnownP.v: matcher_kinded) *)
@@ -73,3 +73,22 @@ Fixpoint match_kinded (defs : list ruledef) (m : imatch) {struct m} : bool :=
          end) args (rparams r)
     end
   end.
+
+(* every statically known data element passes the checks of its directive (fits the directive's width / has a definite
+   size).  An element that does not is an error in the first pass under either setting of the switch. *)
+Definition elem_checked (w : option N) (b : bigint) : bool :=
+  match w with
+  | Some w => negb (size_or_min b >? Z.of_N w)
+  | None => match bsz b with Some _ => true | None => false end
+  end.
+Definition elem_strict_ok (w : option N) (e : expr) : bool :=
+  match eval code_ops dummy_var e [] with
+  | EOk (v, _) => match expect_error_or_bigint v with
+                  | EOk (VInt b) => elem_checked w b
+                  | EOk _ => false
+                  | EErr => true
+                  end
+  | EErr => true
+  end.
+Definition data_static_ok (ns : list node) : Prop :=
+  forall w elems d e, In (NData w elems) ns -> In (d, e) elems -> data_known e = true -> elem_strict_ok w e = true.
